@@ -252,3 +252,23 @@ Proof.
   change (i_num_chunks (built_info lz4c choose cashash chunks hashes scheme)) with (N.of_nat (length chunks)).
   replace ((b <? a) || (N.of_nat (length chunks) <? b) || (N.of_nat (length chunks) <=? a)) with true by lia. reflexivity.
 Qed.
+
+  (* ---- the two read paths agree ---- *)
+
+(* the two read paths agree: the range of all chunks is what get_all_bytes returns *)
+Theorem xorb_full_range_is_all_bytes lz4c lz4d choose :
+  (forall x, lz4d (lz4c x) = Some x) -> (forall x, choose x <= MAX_SCHEME) ->
+  forall cashash chunks hashes scheme,
+  xorb_input_ok cashash chunks hashes -> fold_right N.add 0 (phys_lens lz4c choose chunks scheme) < 4294967296 ->
+  chunks <> [] -> bytes_eqb cashash zero_hash = false -> scheme_valid scheme ->
+  get_bytes_by_chunk_range lz4d (built_info lz4c choose cashash chunks hashes scheme) (xorb_serialize lz4c choose cashash chunks hashes scheme) 0 (N.of_nat (length chunks)) =
+  get_all_bytes lz4d (built_info lz4c choose cashash chunks hashes scheme) (xorb_serialize lz4c choose cashash chunks hashes scheme).
+Proof.
+  intros Hrt Hcv cashash chunks hashes scheme Hin Hp Hne Hz Hs.
+  rewrite (xorb_get_all_bytes lz4c lz4d choose Hrt Hcv cashash chunks hashes scheme Hin Hp Hne Hz Hs).
+  rewrite (xorb_get_chunk_range lz4c lz4d choose Hrt Hcv cashash chunks hashes scheme 0 (N.of_nat (length chunks)) Hin Hp Hz Hs).
+  - replace (N.to_nat 0) with 0%nat by lia. cbn [skipn]. replace (N.to_nat (N.of_nat (length chunks) - 0)) with (length chunks) by lia.
+    rewrite firstn_all. reflexivity.
+  - destruct chunks; [congruence|]. cbn [length]. lia.
+  - lia.
+Qed.
